@@ -183,7 +183,6 @@ func (e *ExecutorEngine) executeSubscription(buf *graphql.EngineResultWriter, id
 
 func (e *ExecutorEngine) handleNonSubscriptionOperation(ctx context.Context, id string, executor Executor, eventHandler EventHandler) {
 	defer func() {
-		e.subCancellations.Cancel(id)
 		err := e.executorPool.Put(executor)
 		if err != nil {
 			e.logger.Error("subscription.Handle.handleNonSubscriptionOperation()",
@@ -204,6 +203,9 @@ func (e *ExecutorEngine) handleNonSubscriptionOperation(ctx context.Context, id 
 			abstractlogger.Error(err),
 		)
 
+		// The id is released before the terminal message is sent: a client may re-use it as soon as
+		// it has seen that message and must not be refused as a duplicate.
+		e.subCancellations.Cancel(id)
 		eventHandler.Emit(EventTypeOnError, id, nil, err)
 		return
 	}
@@ -212,6 +214,7 @@ func (e *ExecutorEngine) handleNonSubscriptionOperation(ctx context.Context, id 
 		abstractlogger.ByteString("execution_result", buf.Bytes()),
 	)
 
+	e.subCancellations.Cancel(id)
 	eventHandler.Emit(EventTypeOnNonSubscriptionExecutionResult, id, buf.Bytes(), err)
 }
 
